@@ -634,9 +634,20 @@ def rule_e6(ck, prog, S, ts):
         if not lexed:
             continue
         pc = [push_code(c) for c in pushes(ps)]
-        inval = [c for c in ps.calls if c.get("callee") == "invalidateToken"]
-        last_lex = max(i for i, c in enumerate(ps.calls) if c.get("callee") in ("scpiParser_parseProgramData", "scpiLex_Comma"))
-        inval_after = any(i > last_lex for i, c in enumerate(ps.calls) if c.get("callee") == "invalidateToken")
+        last_lex = max(i for i, e in enumerate(ps.events) if e[0] == "call" and e[1].get("callee") in ("scpiParser_parseProgramData", "scpiLex_Comma"))
+        unk = prog.enumconst.get("SCPI_TOKEN_UNKNOWN")
+        tokp = f.params[1]["name"]
+        inval_after = False
+        for i, e in enumerate(ps.events):
+            if i <= last_lex:
+                continue
+            if e[0] == "call" and e[1].get("callee") == "invalidateToken":
+                inval_after = True
+            # the same spelled out: token->type = SCPI_TOKEN_UNKNOWN (with len = 0)
+            if e[0] == "store" and C.store_target(e[1]).get("path") == tokp + "->type" and C.const_of(e[1].child(1)) == unk:
+                if any(e2[0] == "store" and C.store_target(e2[1]).get("path") == tokp + "->len" and C.const_of(e2[1].child(1)) == 0
+                       for e2 in ps.events[last_lex + 1:]):
+                    inval_after = True
         if not pc or not all(-199 <= x <= -100 for x in pc) or not inval_after:
             bad.append((ps, pc, inval_after))
     st = K.site(f, "reject-invalidates-and-queues-1xx", 0)
